@@ -11,6 +11,7 @@ use simplicity::node::{Commit, Redeem};
 use simplicity::types;
 use std::cell::RefCell;
 use std::collections::HashMap;
+use std::sync::Arc;
 
 pub static DEF: PropDef = PropDef {
     id: "C18",
@@ -508,4 +509,116 @@ fn leg_real(ctx: &Ctx, out: &mut Out) {
         }
     }
     let _ = Tier::Quick;
+    leg_handles(ctx, out);
+}
+
+/// Real construct-time nodes, whose pointer structure is the enumerated DAG itself: iteration
+/// through a `&Node` handle and through an owned `Arc<Node>` handle must both be the reference
+/// walk of that DAG (the two handle kinds have separate `DagLike` impls, and disconnect nodes have
+/// a third, optional child representation of their own).
+fn leg_handles(ctx: &Ctx, out: &mut Out) {
+    let leg = "handles";
+    let fam = Fam::Core;
+    let alpha = vec![Sym::Iden, Sym::Unit, Sym::Witness, Sym::InjL, Sym::Take, Sym::Drop, Sym::Comp, Sym::Case, Sym::Pair, Sym::Disc1, Sym::Disc2];
+    let nmax = ctx.tier.pick(4, 5);
+    for n in 1..=nmax {
+        let mut dags: Vec<Dag> = vec![];
+        enum_dags(n, &alpha, 3, &mut || ctx.mine(), &mut |d| dags.push(d.to_vec()));
+        for dag in &dags {
+            let label = || render(dag, fam);
+            if !ctx.begin(leg, &label) {
+                continue;
+            }
+            let r = guard(|| -> Result<bool, (String, String)> {
+                types::Context::with_context(|tctx| {
+                    let built = match build(&tctx, dag, fam, &|_| None) {
+                        Ok(b) => b,
+                        Err(_) => return Ok(false),
+                    };
+                    let root = &built[dag.len() - 1];
+                    let index_of: HashMap<usize, usize> = built.iter().enumerate().map(|(i, b)| (Arc::as_ptr(b) as usize, i)).collect();
+                    let g: Vec<GN> = dag.iter().enumerate().map(|(id, x)| GN { id, ar: x.sym.arity(), l: x.l as usize, r: x.r as usize }).collect();
+                    let ident: Vec<Option<usize>> = (0..g.len()).map(Some).collect();
+                    let rootix = g.len() - 1;
+                    let limit = 4096;
+                    for (policy, class) in [("internal", Some(&ident[..])), ("none", None)] {
+                        for mirror in [false, true] {
+                            let want = ref_post_order(&g, rootix, class, mirror);
+                            if want.len() > limit / 2 {
+                                continue;
+                            }
+                            let by_ref: Vec<Item> = {
+                                let h = root.as_ref();
+                                let f = |d: PostOrderIterItem<&_>| Item { node: index_of[&(d.node as *const _ as *const u8 as usize)], index: d.index, li: d.left_index, ri: d.right_index };
+                                match (policy, mirror) {
+                                    ("internal", false) => h.post_order_iter::<InternalSharing>().take(limit).map(f).collect(),
+                                    ("internal", true) => h.rtl_post_order_iter::<InternalSharing>().take(limit).map(f).collect(),
+                                    (_, false) => h.post_order_iter::<NoSharing>().take(limit).map(f).collect(),
+                                    (_, true) => h.rtl_post_order_iter::<NoSharing>().take(limit).map(f).collect(),
+                                }
+                            };
+                            let by_arc: Vec<Item> = {
+                                let h = Arc::clone(root);
+                                let f = |d: PostOrderIterItem<Arc<_>>| Item { node: index_of[&(Arc::as_ptr(&d.node) as *const u8 as usize)], index: d.index, li: d.left_index, ri: d.right_index };
+                                match (policy, mirror) {
+                                    ("internal", false) => h.post_order_iter::<InternalSharing>().take(limit).map(f).collect(),
+                                    ("internal", true) => h.rtl_post_order_iter::<InternalSharing>().take(limit).map(f).collect(),
+                                    (_, false) => h.post_order_iter::<NoSharing>().take(limit).map(f).collect(),
+                                    (_, true) => h.rtl_post_order_iter::<NoSharing>().take(limit).map(f).collect(),
+                                }
+                            };
+                            let what = format!("{}post-order, sharing {policy}", if mirror { "rtl-" } else { "" });
+                            if by_ref != want {
+                                return Err(("handles:ref".into(), format!("&ConstructNode, {what}: {}", first_diff(&by_ref, &want))));
+                            }
+                            if by_arc != want {
+                                return Err(("handles:arc".into(), format!("Arc<ConstructNode>, {what}: {}", first_diff(&by_arc, &want))));
+                            }
+                        }
+                    }
+                    // pre-order: both handle kinds must agree, root first, the left subtree before the right
+                    let pre_ref: Vec<usize> = root.as_ref().pre_order_iter::<InternalSharing>().take(limit).map(|d| index_of[&(d as *const _ as *const u8 as usize)]).collect();
+                    let pre_arc: Vec<usize> = Arc::clone(root).pre_order_iter::<InternalSharing>().take(limit).map(|d| index_of[&(Arc::as_ptr(&d) as *const u8 as usize)]).collect();
+                    fn ref_pre(g: &[GN], i: usize, seen: &mut Vec<bool>, out: &mut Vec<usize>) {
+                        if seen[i] {
+                            return;
+                        }
+                        seen[i] = true;
+                        out.push(i);
+                        if g[i].ar >= 1 {
+                            ref_pre(g, g[i].l, seen, out);
+                        }
+                        if g[i].ar >= 2 {
+                            ref_pre(g, g[i].r, seen, out);
+                        }
+                    }
+                    let mut want_pre = vec![];
+                    ref_pre(&g, rootix, &mut vec![false; g.len()], &mut want_pre);
+                    if pre_ref != want_pre {
+                        return Err(("handles:ref".into(), format!("&ConstructNode pre-order visits {pre_ref:?}, the reference {want_pre:?}")));
+                    }
+                    if pre_arc != want_pre {
+                        return Err(("handles:arc".into(), format!("Arc<ConstructNode> pre-order visits {pre_arc:?}, the reference {want_pre:?}")));
+                    }
+                    Ok(true)
+                })
+            });
+            match r {
+                Ok(Ok(true)) => {
+                    out.evaluations += 1;
+                    out.states += 1;
+                    out.transitions += 10;
+                    if shared_nodes(dag) > 0 || dag.iter().any(|x| matches!(x.sym, Sym::Disc1 | Sym::Disc2)) {
+                        out.nontrivial += 1;
+                    }
+                    out.outcome("handles:ok");
+                    out.sample(leg, || (label(), "post-order, rtl post-order and pre-order through & and Arc handles equal the reference walk of the DAG".into()));
+                }
+                Ok(Ok(false)) => {}
+                Ok(Err((class, d))) => out.violation(&class, leg, label(), d),
+                Err(p) => out.violation(&panic_class(&p), leg, label(), p),
+            }
+            ctx.end();
+        }
+    }
 }
